@@ -50,6 +50,15 @@ def scenarios(quick: bool) -> list[tuple[dict, int]]:
                     "dev": ENV + ("call", "foreign"),
                 }
                 sc.append((p, 1 if quick else 2))
+    # one Command object handed to send_cmd twice (an application polling with a stored command), the copies overlapping
+    for to_a, to_b in ((20.0, 0.25), (0.5001, 20.0), (20.0, 20.0), (1.5001, 0.25)):
+        for start in ("t0", "q"):
+            p = {
+                "qos_mode": False,
+                "callers": [caller("rq30c9_01", timeout=to_a), caller("rq30c9_01", same_as=0, timeout=to_b, start=start)],
+                "dev": ENV + ("call",),
+            }
+            sc.append((p, 1 if quick else 2))
     for prios in (("DEFAULT", "DEFAULT", "DEFAULT"), ("LOW", "DEFAULT", "HIGH"), ("HIGH", "LOW", "HIGH")):
         p = {
             "qos_mode": False,
